@@ -29,6 +29,7 @@ func init() {
 			ruleAlwaysCancels(r, "O8")
 			ruleC10O11(r)
 			le10 := newLockEngine(r.P)
+			ruleW4(r, le10, "O13")
 			ruleLockPairingFor(r, le10, "O12", "no lock outlives its function in the connection layer: every function of iscp.Conn that takes a lock releases it on every path (a leaked table mutex makes calls after Close block instead of failing)", func(fn *ssa.Function) bool {
 				return fnPkgPath(fn) == modPath+"/iscp" && recvTypeName(topFunc(fn)) == "Conn" && (le10.Info(fn).Events > 0 || len(le10.Info(fn).Reports) > 0)
 			}, 10)
